@@ -2,87 +2,42 @@
    Statements only; proofs in SV.SyncProofs / SyncDocProofs / SyncTopProofs / C15Proofs. *)
 From SV Require Import C15Proofs SyncWitness.
 
-(* ---------------------------------------------------------------- dry_run_no_change
-   FULL statement: dry_run = true -> tree_dst' = tree_dst /\ tree_src' = tree_src /\ documents unchanged
-                   /\ (the dry run raises c <-> the real run raises c).
-   It is FALSE of /repo (four independent defects, each with a witness replayed on the real code): *)
-Theorem C15_dry_run_no_change_refuted_F3_typeerror :
-  exists i, o_dry_run (i_opts i) = true
-            /\ ob_exn (c_obs (model_case nofl cfg_current i)) = Some ETypeError
-            /\ option_map ob_exn (c_ref (model_case nofl cfg_current i)) = Some None
-            /\ dry_ok nofl (model_case nofl cfg_current i) = false
-            /\ dry_ok nofl (model_case nofl cfg_fixed i) = true.
-Proof. exists wit_C15_w1. exact w1_facts. Qed.
-Print Assumptions C15_dry_run_no_change_refuted_F3_typeerror.
-
-Theorem C15_dry_run_no_change_refuted_F4_skeleton :
-  exists i, o_dry_run (i_opts i) = true
-            /\ ob_exn (c_obs (model_case nofl cfg_current i)) = None
-            /\ proj_eqb nofl (i_dst i) (ob_dst (c_obs (model_case nofl cfg_current i))) = false
-            /\ dry_ok nofl (model_case nofl cfg_current i) = false
-            /\ dry_ok nofl (model_case nofl cfg_fixed i) = true.
-Proof. exists wit_C15_w2. exact w2_facts. Qed.
-Print Assumptions C15_dry_run_no_change_refuted_F4_skeleton.
-
-Theorem C15_dry_run_no_change_refuted_F16_nested_doc :
-  exists i, o_dry_run (i_opts i) = true
-            /\ ob_exn (c_obs (model_case nofl cfg_current i)) = None
-            /\ proj_eqb nofl (i_dst i) (ob_dst (c_obs (model_case nofl cfg_current i))) = false
-            /\ dry_ok nofl (model_case nofl cfg_current i) = false
-            /\ dry_ok nofl (model_case nofl cfg_fixed i) = true.
-Proof. exists wit_C15_w3. exact w3_facts. Qed.
-Print Assumptions C15_dry_run_no_change_refuted_F16_nested_doc.
-
-Theorem C15_dry_run_no_change_refuted_uninitialised_dst :
-  exists i, o_dry_run (i_opts i) = true
-            /\ ob_exn (c_obs (model_case nofl cfg_current i)) = Some EOSError
-            /\ option_map ob_exn (c_ref (model_case nofl cfg_current i)) = Some None
-            /\ dry_ok nofl (model_case nofl cfg_current i) = false
-            /\ dry_ok nofl (model_case nofl cfg_fixed i) = true.
-Proof. exists wit_C15_w6. exact w6_facts. Qed.
-Print Assumptions C15_dry_run_no_change_refuted_uninitialised_dst.
-
-(* The FULL statement holds for the repaired code (F3, F4, F16 = the three dry-run patches of notes/C15.md):
-   a project-level dry run returns the destination project EQUAL to the input (files, directories, documents,
-   mtimes) and ends with the exception class of the real run (None = returns).  The source is untouched by
-   C13_sync_src_unchanged.  [job_ok]: source job directories have distinct names at every level, documents have
-   distinct keys, no stale "~" backup of the document in the source. *)
-Theorem C15_dry_run_no_change : forall frepr cf, fix_F3 cf = true -> fix_F4 cf = true -> fix_F16 cf = true ->
-  forall o src dst,
+(* ---------------------------------------------------------------- dry_run_no_change — FULL, for /repo as it is
+   (cfg_current; the repairs 9f55003 F3, 6b3ddc7 F4, 7de64dd F16, e70794c have landed): a project-level dry run
+   returns the destination project EQUAL to the input (files, directories, documents, mtimes) and ends with the
+   exception class of the real run (None = returns).  The source is untouched by C13_sync_src_unchanged.
+   [job_ok]: source job directories have distinct names at every level, documents have distinct keys, no stale
+   "~" backup of the document in the source.  The former counterexamples are corpus/C15/w1, w2, w3, w6. *)
+Theorem C15_dry_run_no_change : forall frepr o src dst,
   NoDup (map fst (p_ws src)) -> (forall kn, In kn (p_ws src) -> job_ok (snd kn)) ->
   wf (JObj (read_doc FN_PDOC (p_top src))) = true ->
-  fst (sync_projects_m frepr cf false (set_dry o true) src dst) = dst
-  /\ snd (sync_projects_m frepr cf false (set_dry o true) src dst)
-     = snd (sync_projects_m frepr cf false (set_dry o false) src dst).
-Proof. exact dry_run_no_change_fixed. Qed.
+  fst (sync_projects_m frepr cfg_current false (set_dry o true) src dst) = dst
+  /\ snd (sync_projects_m frepr cfg_current false (set_dry o true) src dst)
+     = snd (sync_projects_m frepr cfg_current false (set_dry o false) src dst).
+Proof. exact dry_run_no_change_current. Qed.
 Print Assumptions C15_dry_run_no_change.
 
-(* the same at job level (Job.sync / sync_jobs) for an initialised destination job *)
-Theorem C15_dry_run_no_change_job_level : forall frepr cf, fix_F3 cf = true -> fix_F4 cf = true -> fix_F16 cf = true ->
-  forall o deep fp sdir ddir dsp, job_ok (Dir sdir) ->
-  fst (sync_jobs_m frepr cf (set_dry o true) deep fp (Some sdir) (Some ddir) dsp) = Some ddir
-  /\ snd (sync_jobs_m frepr cf (set_dry o true) deep fp (Some sdir) (Some ddir) dsp)
-     = snd (sync_jobs_m frepr cf (set_dry o false) deep fp (Some sdir) (Some ddir) dsp).
-Proof. exact dry_run_no_change_fixed_job. Qed.
+(* the same at job level (Job.sync / sync_jobs) for an initialised destination job ... *)
+Theorem C15_dry_run_no_change_job_level : forall frepr o deep fp sdir ddir dsp, job_ok (Dir sdir) ->
+  fst (sync_jobs_m frepr cfg_current (set_dry o true) deep fp (Some sdir) (Some ddir) dsp) = Some ddir
+  /\ snd (sync_jobs_m frepr cfg_current (set_dry o true) deep fp (Some sdir) (Some ddir) dsp)
+     = snd (sync_jobs_m frepr cfg_current (set_dry o false) deep fp (Some sdir) (Some ddir) dsp).
+Proof. exact dry_run_no_change_job_current. Qed.
 Print Assumptions C15_dry_run_no_change_job_level.
 
-(* PARTIAL: the "writes nothing" half needs only F4 and F16 (F3 only turns "returns" into TypeError), and holds
-   for the pooled variant too *)
-Theorem C15_dry_run_no_change_partial : forall frepr cf all o src dst,
-  o_dry_run o = true -> fix_F4 cf = true -> fix_F16 cf = true -> docs_wf src ->
-  fst (sync_projects_m frepr cf all o src dst) = dst.
-Proof. exact sync_projects_dry_id. Qed.
-Print Assumptions C15_dry_run_no_change_partial.
+(* ... and into an uninitialised one: it returns and creates nothing (not proved: that the real run returns too;
+   checked by the companion run of every such correspondence case) *)
+Theorem C15_dry_run_uninitialised_destination : forall frepr o deep sdir dsp,
+  sync_jobs_m frepr cfg_current (set_dry o true) deep false (Some sdir) None dsp = (None, None).
+Proof. exact dry_run_uninitialised_current. Qed.
+Print Assumptions C15_dry_run_uninitialised_destination.
 
-(* PARTIAL, for /repo as it is (no switch assumed): job level, when copytree cannot be reached (not recursive)
-   and the source document has no nested mapping, a dry run leaves the destination job as it is *)
-Theorem C15_dry_run_no_change_partial_current : forall frepr cf o deep fp src dst dsp,
-  o_dry_run o = true -> fix_F4 cf = true \/ o_recursive o = false ->
-  (forall sd, src = Some sd -> (fix_F16 cf = true \/ flat_obj (JObj (read_doc FN_DOC sd)) = true)
-                               /\ NoDup (map fst (read_doc FN_DOC sd))) ->
-  fst (sync_jobs_m frepr cf o deep fp src dst dsp) = dst.
-Proof. exact sync_jobs_dry_id. Qed.
-Print Assumptions C15_dry_run_no_change_partial_current.
+(* the "writes nothing" half also for the pooled variant (any set of jobs reached), given a sequentially
+   consistent ByKey — the state ByKey shares between the worker threads is open known finding 7 *)
+Theorem C15_dry_run_no_change_pooled : forall frepr all o src dst,
+  o_dry_run o = true -> docs_wf src -> fst (sync_projects_m frepr cfg_current all o src dst) = dst.
+Proof. exact dry_run_pooled_current. Qed.
+Print Assumptions C15_dry_run_no_change_pooled.
 
 (* the file walk alone: copy() under dry_run never writes — it only raises (F3) *)
 Theorem C15_dry_run_walk_writes_nothing : forall frepr cf fuel o deep sdir ddir subdir,
@@ -103,39 +58,41 @@ Theorem C15_deep_by_content_job_level : forall frepr cf o sid did dsp src dst c1
          p_ws := match d' with Some x => aset did (Dir x) (p_ws dst) | None => p_ws dst end |}, e))
   /\ (file_same frepr true c1 m1 c2 m2 = false
       <-> bytes_eqb (content_bytes frepr c1) (content_bytes frepr c2) = false).
-Proof. intros. split; [apply job_level_deep|apply deep_diff_is_bytes]. Qed.
+Proof. exact deep_by_content_job_level. Qed.
 Print Assumptions C15_deep_by_content_job_level.
 
-(* Project level: sync_projects hands proj_deep to sync_jobs, which is o_deep iff F5 is repaired ... *)
-Theorem C15_deep_by_content_project_level_partial : forall cf o, fix_F5 cf = true -> proj_deep cf o = o_deep o.
-Proof. exact proj_deep_fixed. Qed.
-Print Assumptions C15_deep_by_content_project_level_partial.
+(* Project level — FULL for /repo as it is (repair 0ec1e88): sync_projects hands deep on to sync_jobs; the
+   former counterexample is corpus/C15/w4 *)
+Theorem C15_deep_by_content_project_level : forall o, proj_deep cfg_current o = o_deep o.
+Proof. exact proj_deep_current. Qed.
+Print Assumptions C15_deep_by_content_project_level.
 
-(* ... and is constantly false in /repo: same size, same mtime, different bytes, deep=True, no strategy —
-   Project.sync returns instead of raising FileSyncConflict *)
-Theorem C15_deep_by_content_refuted :
-  exists i, o_deep (i_opts i) = true /\ o_strategy (i_opts i) = None
-            /\ ob_exn (c_obs (model_case nofl cfg_current i)) = None
-            /\ deep_ok nofl i (c_obs (model_case nofl cfg_current i)) = false
-            /\ ob_exn (c_obs (model_case nofl cfg_fixed i)) = Some EFileSyncConflict
-            /\ deep_ok nofl i (c_obs (model_case nofl cfg_fixed i)) = true.
-Proof. exists wit_C15_w4. exact w4_facts. Qed.
-Print Assumptions C15_deep_by_content_refuted.
 
 (* ---------------------------------------------------------------- exclude_never_touched
    FULL statement: a file whose name matches an exclude pattern is never created or modified.
-   PARTIAL: true of the file walk of a real run when copytree honours the patterns (fix_excl) or is never
-   reached (not recursive) — any outcome; the destination node at such a path is unchanged unless it is a
-   directory on both sides (directories are walked, not matched).  MISSING for /repo: left-only directories
-   and cloned jobs are copied whole — C15_exclude_never_touched_refuted *)
-Theorem C15_exclude_never_touched_partial : forall frepr cf p fuel o deep sdir ddir subdir,
+   PARTIAL (this is the open known finding 5; the repair, exclude patterns handed to copytree, is a design
+   decision and has not landed): for /repo as it is the statement is proved for the file walk of a real run that
+   cannot reach copytree (not recursive) — any outcome; the destination node at such a path is unchanged unless
+   it is a directory on both sides (directories are walked, not matched).  For an arbitrary configuration with
+   fix_excl the recursive case holds too.  MISSING for /repo: left-only directories and cloned jobs are copied
+   whole — C15_exclude_never_touched_refuted *)
+Theorem C15_exclude_never_touched_partial : forall frepr p fuel o deep sdir ddir subdir,
+  o_recursive o = false ->
+  wf_node (Dir sdir) = true -> o_dry_run o = false ->
+  p <> [] -> excluded cfg_current o (last p []) = true ->
+  (forall es, lookup_path p (Dir ddir) <> Some (Dir es)) ->
+  lookup_path p (Dir (fst (sync_ws frepr cfg_current fuel o deep sdir ddir subdir))) = lookup_path p (Dir ddir).
+Proof. exact exclude_never_touched_current. Qed.
+Print Assumptions C15_exclude_never_touched_partial.
+
+Theorem C15_exclude_never_touched_partial_with_repair : forall frepr cf p fuel o deep sdir ddir subdir,
   fix_excl cf = true \/ o_recursive o = false ->
   wf_node (Dir sdir) = true -> o_dry_run o = false ->
   p <> [] -> excluded cf o (last p []) = true ->
   (forall es, lookup_path p (Dir ddir) <> Some (Dir es)) ->
   lookup_path p (Dir (fst (sync_ws frepr cf fuel o deep sdir ddir subdir))) = lookup_path p (Dir ddir).
 Proof. exact ws_exclude_never_touched. Qed.
-Print Assumptions C15_exclude_never_touched_partial.
+Print Assumptions C15_exclude_never_touched_partial_with_repair.
 
 Theorem C15_exclude_never_touched_refuted :
   exists i, o_exclude (i_opts i) [120%N] = true
@@ -166,22 +123,23 @@ Print Assumptions C15_parallel_eq_sequential.
 Theorem C15_job_step_is_local : forall frepr cf o,
   frame_step (fun kn : str * node => fst kn) (clone_or_sync frepr cf o)
   /\ local_step (fun kn : str * node => fst kn) (clone_or_sync frepr cf o).
-Proof. intros. split; [apply clone_or_sync_frame|apply clone_or_sync_local]. Qed.
+Proof. exact job_step_is_local. Qed.
 Print Assumptions C15_job_step_is_local.
 
 (* licence for the correspondence: the tree part of the dry-run clause of the oracle holds on what the model
-   (with F4 and F16 repaired) computes for a project-level dry run *)
-Theorem C15_model_holds : forall frepr cf i,
-  i_entry i = E_project -> o_dry_run (i_opts i) = true -> fix_F4 cf = true -> fix_F16 cf = true ->
+   (/repo as it is) computes for a project-level dry run *)
+Theorem C15_model_holds : forall frepr i,
+  i_entry i = E_project -> o_dry_run (i_opts i) = true ->
   docs_wf (i_src i) -> wf_project (i_src i) = true -> wf_project (i_dst i) = true ->
-  let c := model_case frepr cf i in
+  let c := model_case frepr cfg_current i in
   proj_eqb frepr (i_dst i) (ob_dst (c_obs c)) = true /\ proj_eqb frepr (i_src i) (ob_src (c_obs c)) = true
   /\ ob_rest_ok (c_obs c) = true.
-Proof. exact model_holds_C15. Qed.
+Proof. exact model_holds_C15_current. Qed.
 Print Assumptions C15_model_holds.
 
 (* non-vacuity: the six witnesses are well-formed inputs on which the repaired model satisfies the whole oracle *)
 Example C15_example :
-  forallb (fun i => holds_C15 nofl (model_case nofl cfg_fixed i) && wf_project (i_src i) && wf_project (i_dst i))
-          [wit_C15_w1; wit_C15_w2; wit_C15_w3; wit_C15_w4; wit_C15_w5; wit_C15_w6] = true.
-Proof. vm_compute. reflexivity. Qed.
+  forallb (fun i => holds_C15 nofl (model_case nofl cfg_current i) && wf_project (i_src i) && wf_project (i_dst i))
+          [wit_C15_w1; wit_C15_w2; wit_C15_w3; wit_C15_w4; wit_C15_w6] = true
+  /\ holds_C15 nofl (model_case nofl cfg_fixed wit_C15_w5) = true.
+Proof. vm_compute. split; reflexivity. Qed.
